@@ -264,6 +264,10 @@ def loc_str(n):
     return '%s:%s' % (f, l)
 
 
+WIDE_INT = ('long', 'unsigned long', 'long long', 'unsigned long long')
+NARROW_INT = ('int', 'unsigned int', 'short', 'unsigned short')
+
+
 class Rule:
     """callbacks a check can override"""
     track_pc = False
@@ -290,6 +294,10 @@ class Rule:
 
     def on_branch(self, it, st, v, node):
         """called when a condition on an opaque value splits the state"""
+        pass
+
+    def on_narrow(self, it, st, v, node, from_type, to_type):
+        """a non-concrete 64-bit integer is converted to a narrower integer type (the engine itself keeps the value unchanged)"""
         pass
 
     def keep_event(self, ev):
@@ -627,6 +635,13 @@ class Interp:
                 dq = e.get('type', {}).get('desugaredQualType', qt)
                 if dq in ('unsigned char', 'char', 'signed char'):
                     out = [(s, self.trunc8(v, dq)) for s, v in out]
+                elif dq.replace('const ', '') in NARROW_INT:
+                    sq = sub.get('type', {})
+                    sq = (sq.get('desugaredQualType') or sq.get('qualType') or '').replace('const ', '')
+                    if sq in WIDE_INT:
+                        for s, v in out:
+                            if not isinstance(v, Int):
+                                self.rule.on_narrow(self, s, v, e, sq, dq)
             return out
         raise Unsupported('cast %s at %s' % (ck, loc_str(e)))
 
